@@ -661,6 +661,10 @@ def run_c12(mod, lib, case, root, canon, datadir):
             except (Exception, RecursionError) as e:
                 mon("serialize-raises:" + err_kind(e), f"save raised {type(e).__name__}: {str(e)[:200]}", {"entry": "save"})
                 return rec
+            bad = modified_sources()
+            if bad:
+                mon("save-modifies-source", f"save modified (or removed) the data file(s) it was given: {[canon.path(b) for b in bad]}", {"entry": "save"})
+                make_data_files(datadir)
             has_data = '"path.serialized"' in (sd / "definition.json").read_text()
             rec["stats"]["save_has_data"] = has_data
             new = None
@@ -679,8 +683,8 @@ def run_c12(mod, lib, case, root, canon, datadir):
                 x, y = Path(x), Path(y)
                 if not str(y).startswith(str(sd)):
                     raise Differ("data", f"{at}: loaded data path {canon.path(str(y))} is not inside the save directory")
-                if not y.is_file() or y.read_bytes() != x.read_bytes():
-                    raise Differ("data", f"{at}: the file restored for {canon.path(str(x))} does not hold its content")
+                if not y.is_file() or y.read_bytes() != expected_bytes(x):
+                    raise Differ("data", f"{at}: the file restored for {canon.path(str(x))} ({canon.path(str(y))}) does not hold its content")
             if new is not None:
                 for k, w in compare_reloaded(val, new, data_eq=data_eq):
                     mon("save-data-collision" if k == "data" else classify_reload_diff(k), f"save -> load: {w}", {"entry": "save"})
@@ -746,13 +750,17 @@ def run_c12(mod, lib, case, root, canon, datadir):
                         sd = Path(tempfile.mkdtemp(prefix="gen-", dir=str(datadir.parent)))
                         dirs.append(sd)
                         serialization.save(cur, sd)
+                        bad = modified_sources()
+                        if bad:
+                            mon("save-modifies-source", f"{label}: save modified the data file(s) it was given: {[canon.path(b) for b in bad]}", {"entry": "routes"})
+                            make_data_files(datadir)
                         cur = new = serialization.load(sd)
                 except (Exception, RecursionError) as e:
                     mon("reload-raises:" + err_kind(e), f"{label} raised {type(e).__name__}: {str(e)[:200]}", {"entry": "routes"})
                     break
 
                 def data_same(x, y, at):
-                    if not Path(y).is_file() or Path(y).read_bytes() != Path(x).read_bytes():
+                    if not Path(y).is_file() or Path(y).read_bytes() != expected_bytes(x):
                         raise Differ("data", f"{at}: the file restored for {canon.path(str(x))} does not hold its content")
                 diffs = compare_reloaded(rootobj, new, data_eq=data_same)
                 for k, w in diffs:
@@ -830,14 +838,40 @@ def run_c12(mod, lib, case, root, canon, datadir):
 
 # ----------------------------------------------------------------- save / load with data files: correspondence (model: Model/SerialData.lean)
 
-DATA_FS = [[hx(f"{DATA_TAG}/f{i}.bin"), i + 1] for i in range(8)]
+# data files: name relative to the data directory -> content id; files with the same base name in different directories
+# hold different contents (a copy named after the file rather than after the parameter makes them collide)
+DATA_FILES = {**{f"f{i}.bin": i + 1 for i in range(8)}, "q/model.bin": 9, "d/model.bin": 10, "q/weights.pt": 11, "d/weights.pt": 12}
+DATA_FS = [[hx(f"{DATA_TAG}/{name}"), cid] for name, cid in DATA_FILES.items()]
+EXPECTED = {}        # absolute path of a data file -> the bytes it was created with
+
+
+def data_bytes(name):
+    return f"content of data file {name}\n".encode() * DATA_FILES[name]
+
+
+def make_data_files(datadir):
+    for name in DATA_FILES:
+        p = datadir / name
+        p.parent.mkdir(parents=True, exist_ok=True)
+        p.write_bytes(data_bytes(name))
+        EXPECTED[str(p)] = data_bytes(name)
+
+
+def expected_bytes(x):
+    """the bytes a data file was created with (NOT what the file holds now: a save may have written through a hard link)"""
+    b = EXPECTED.get(str(x))
+    return Path(x).read_bytes() if b is None else b
+
+
+def modified_sources():
+    return sorted(p for p, b in EXPECTED.items() if not Path(p).is_file() or Path(p).read_bytes() != b)
 
 
 def content_id(b):
-    """content id of a data file made by main(): i + 1 for `f{i}.bin`, 0 for anything else"""
-    for i in range(8):
-        if b == f"content of data file {i}\n".encode() * (i + 1):
-            return i + 1
+    """content id of a data file made by make_data_files(), 0 for anything else"""
+    for name, cid in DATA_FILES.items():
+        if b == data_bytes(name):
+            return cid
     return 0
 
 
@@ -920,6 +954,8 @@ def save_route(rec, val, index, idmap, canon, datadir, gen2):
         rec["stats"]["save_route"] = "gen2" if gen2 else "gen1"
         return True
     finally:
+        if modified_sources():
+            make_data_files(datadir)
         shutil.rmtree(sd, ignore_errors=True)
         shutil.rmtree(sd2, ignore_errors=True)
 
@@ -1629,8 +1665,7 @@ def main():
     root = Path(tempfile.mkdtemp(prefix="xvser-"))
     datadir = root / "data"
     datadir.mkdir()
-    for i in range(8):
-        (datadir / f"f{i}.bin").write_bytes(f"content of data file {i}\n".encode() * (i + 1))
+    make_data_files(datadir)
     out = []
     try:
         mods = [load_lib(lib, root) for lib in data["libs"]]
